@@ -207,7 +207,8 @@ FIELD_KINDS = ["int", "str", "float", "bool", "bytes", "field", "number_int", "n
 def _method_ns():
     import typing
     from cincoconfig.core import Config
-    ns = {"typing": typing, "Config": Config, "Outer": Outer}
+    import functools
+    ns = {"typing": typing, "Config": Config, "Outer": Outer, "functools": functools}
     ns.update(_local_types())
     for n in ("Optional", "List", "Dict", "Callable", "Tuple", "Union", "Sequence", "Literal", "Any", "Set", "Type"):
         ns[n] = getattr(typing, n)
@@ -424,7 +425,9 @@ def py_projection(text):
 def sig_of(fn):
     """(positional names, vararg, keyword-only names, kwarg) of the bound function: the signature of
     the function minus its leading config parameter"""
-    ps = list(inspect.signature(fn).parameters.values())
+    # the bound function is the callable that was registered (a functools.wraps wrapper, a partial ...):
+    # what config.<name>(...) accepts, so wrapper chains are not followed
+    ps = list(inspect.signature(fn, follow_wrapped=False).parameters.values())
     if ps and ps[0].kind in (ps[0].POSITIONAL_ONLY, ps[0].POSITIONAL_OR_KEYWORD):
         ps = ps[1:]
     pos = [p.name for p in ps if p.kind in (p.POSITIONAL_ONLY, p.POSITIONAL_OR_KEYWORD)]
@@ -514,7 +517,10 @@ def expectations(schema):
 
 def fn_snapshot(fns):
     """what a caller can observe of the method functions: signature, annotations, defaults"""
-    return [(k, str(inspect.signature(fn)), repr(fn.__annotations__), repr(fn.__defaults__), repr(fn.__kwdefaults__),
+    def attr(fn, n):          # a functools.partial has none of these (plain functions, never Schemas)
+        return repr(fn.__dict__.get(n)) if not hasattr(fn, n) else repr(getattr(fn, n))
+    return [(k, str(inspect.signature(fn)), str(inspect.signature(fn, follow_wrapped=False)), attr(fn, "__annotations__"),
+             attr(fn, "__defaults__"), attr(fn, "__kwdefaults__"), repr(getattr(fn, "__wrapped__", None) is not None),
              repr(inspect.getfullargspec(fn))) for k, fn in fns.items()]
 
 
@@ -800,6 +806,10 @@ def tags(c, obs):
                 t.add("sig:default")
             if "->" in src:
                 t.add("sig:return")
+            if "functools.wraps" in src:
+                t.add("sig:wraps")
+            if "functools.partial" in src:
+                t.add("sig:partial")
             if "[" in src:
                 t.add("sig:typing")
         else:
@@ -906,9 +916,33 @@ POOL_OUT = [
     ("def f(cfg, a) -> 5: pass", True),                 # the return annotation is dropped, the stub is still complete
     ("def f(cfg, a: int, *, k: 3.5 = 1): pass", False),
 ]
+# soft keywords and builtin-looking names are perfectly valid identifiers / attribute names (hard keywords and
+# `self` stay outside the domain)
+SOFT_KEYS = ["type", "match", "case", "_", "id", "list", "dict", "str", "int", "object", "property", "print"]
 KEYS = ["a", "b", "name", "port", "snake_case", "CamelCase", "x9", "_private", "host", "items", "values", "cls", "args",
-        "kwargs", "typing", "cincoconfig", "f0", "f1", "f2", "f3", "f4", "f5", "f6", "f7"]
-MKEYS = ["m0", "m1", "m2", "run", "say_hello", "get", "__call__", "update"]
+        "kwargs", "typing", "cincoconfig", "f0", "f1", "f2", "f3", "f4", "f5", "f6", "f7"] + SOFT_KEYS
+MKEYS = ["m0", "m1", "m2", "run", "say_hello", "get", "__call__", "update", "filter", "format", "len", "next"]
+
+# decorated / derived callables registered as instance methods.  The unchanged code inspects the registered
+# callable itself (inspect.getfullargspec does not follow __wrapped__): the stub shows the WRAPPER's parameters,
+# which is what config.<name>(...) accepts.
+_INNER = "def g(cfg, conn, sql: str, limit: int = 10) -> list: return []\n"
+DECOS = {
+    "passthru": "def deco(func):\n    @functools.wraps(func)\n    def wrapper(cfg, *args, **kwargs): return func(cfg, *args, **kwargs)\n    return wrapper\n",
+    "inject": "def deco(func):\n    @functools.wraps(func)\n    def wrapper(cfg, *args, retries=3, **kwargs): return func(cfg, None, *args, **kwargs)\n    return wrapper\n",
+    "narrow": "def deco(func):\n    @functools.wraps(func)\n    def wrapper(cfg, sql): return func(cfg, None, sql)\n    return wrapper\n",
+    "extra": "def deco(func):\n    @functools.wraps(func)\n    def wrapper(cfg, token: str, *args, **kwargs) -> bool: return func(cfg, *args, **kwargs)\n    return wrapper\n",
+    "rename": "def deco(func):\n    @functools.wraps(func)\n    def wrapper(config, query, *, max_rows=10): return func(config, None, query, max_rows)\n    return wrapper\n",
+    "twice": "def deco(func):\n    @functools.wraps(func)\n    def w1(cfg, a, b): return func(cfg, a, b)\n    @functools.wraps(w1)\n    def w2(cfg, *, only): return w1(cfg, only, only)\n    return w2\n",
+}
+WRAP_POOL = [DECOS[d] + _INNER + "f = deco(g)" for d in ("passthru", "inject", "narrow", "extra", "rename", "twice")] + [
+    _INNER + "f = functools.partial(g, limit=5)",
+    _INNER + "f = functools.partial(g, sql='x', limit=5)",
+    _INNER + "f = functools.partial(g, 1)",                 # the configuration lands in the next free parameter
+]
+# pass-through without a leading positional parameter: region of the open finding F45
+WRAP_POOL_F45 = ["def deco(func):\n    @functools.wraps(func)\n    def wrapper(*args, **kwargs): return func(*args, **kwargs)\n    return wrapper\n"
+                 + _INNER + "f = deco(g)"]
 
 
 def rsig(rng, f45=False):
@@ -961,6 +995,13 @@ def rfields(rng, depth=0, allow_methods=True):
                 src = rng.choice(POOL_F45) if rng.random() < 0.5 else rsig(rng, f45=True)
             elif r < 0.045:
                 src = rng.choice(POOL_F52)
+            elif r < 0.05:
+                src = WRAP_POOL_F45[0]
+            elif r < 0.12:
+                src = rng.choice(WRAP_POOL)
+            elif r < 0.17:
+                # a random inner function behind a signature-changing decorator
+                src = DECOS[rng.choice(["passthru", "inject", "extra", "rename"])] + rsig(rng).replace("def f(", "def g(", 1) + "\nf = deco(g)"
             elif r < 0.35:
                 src = rng.choice(POOL)
             else:
@@ -1113,6 +1154,19 @@ def generate(rng, tier):
                          ("other", "Thing", False), ("other", None, False)):
         cases.append(case([list(x) for x in base], target=tgt, class_name=cn, type_name="MyType", domain=dom))
         cases.append(case([], target=tgt, class_name=cn, type_name="Empty", domain=dom))
+    # decorated / derived callables as instance methods
+    for src in WRAP_POOL + WRAP_POOL_F45:
+        cases.append(case([["a", ["f", "int"]], ["m", ["method", src]]]))
+        cases.append(case([["m", ["method", src]], ["n", ["method", POOL[8]]]], target="config"))
+    # soft keywords / builtin-looking names as field, nested-schema, config-type and method keys
+    for k in SOFT_KEYS:
+        cases.append(case([[k, ["f", "int", "const"]], ["z", ["f", "str"]]]))
+        cases.append(case([["z", ["f", "str"]], [k, ["f", "virtual"]]], target="config"))
+        cases.append(case([[k, ["schema", [[k, ["f", "int"]]]]]], target="type", type_name="Soft"))
+        cases.append(case([[k, ["method", POOL[28]]], ["z", ["f", "str"]]]))
+    cases.append(case([[k, ["f", "int"]] for k in SOFT_KEYS]))
+    cases.append(case([[k, ["ct", "CT"]] for k in SOFT_KEYS[:4]]))
+    cases.append(case([[k, ["method", POOL[i]]] for i, k in enumerate(SOFT_KEYS)], target="config"))
     # help= / name= texts on every field kind (the first paragraph of help is Field.short_help)
     for i, kind in enumerate(FIELD_KINDS):
         cases.append(case([["x", ["f", kind, None, {"help": HELPS[i % len(HELPS)], "name": NAMES[i % len(NAMES)]}]],
